@@ -55,4 +55,27 @@ def run (s : St) : List (Bytes × Bool) → St
   | [] => s
   | (raw, create) :: ops => run (getOrCreate s raw create).1 ops
 
+/-- `run` collecting the answers: K writers, one critical section each, in the order of the list (a schedule) -/
+def runRes (s : St) : List Bytes → St × List Res
+  | [] => (s, [])
+  | raw :: ws =>
+    let (s1, r) := getOrCreate s raw true
+    let (s2, rs) := runRes s1 ws
+    (s2, r :: rs)
+
+/-- `saveStateUnsafe`: `json.Marshal(ims.tmap)` — the keys and the journal ids (the tag sets are not written) -/
+def saveState (s : St) : List (Bytes × Nat) := s.tmap.map (fun e => (e.1, e.2.src))
+
+/-- `loadState`: every key is parsed again (`tag.ParseUnsafe(key)`) to rebuild the descriptor's tag set; a key the
+parser rejects makes the load fail (the server refuses to start) -/
+def loadEntries : List (Bytes × Nat) → Option (List (Bytes × Desc))
+  | [] => some []
+  | (k, src) :: r =>
+    match parse k with
+    | none => none
+    | some m =>
+      match loadEntries r with
+      | none => none
+      | some l => some ((k, ⟨src, m⟩) :: l)
+
 end Logrange.TIndexId
